@@ -369,6 +369,11 @@ def draw_table(stream, table):
 
 def draw_collapsed_borders(stream, table):
     """Draw borders of table cells when they collapse."""
+    cells = (
+        cell for row_group in table.children
+        for row in row_group.children for cell in row.children)
+    if all(box.style['visibility'] != 'visible' for box in (table, *cells)):
+        return
     row_heights = [
         row.height for row_group in table.children
         for row in row_group.children]
